@@ -14,6 +14,21 @@ def gen_cfg(rng, scale=None, gammas=GAMMA_NAMES, kappas=(1e-6, 1e-4, 1e-4, 1e-4,
         # the documented default configuration, NOT passed to the constructor (util.build leaves the parameters out)
         return dict(mu=25.0, sigma=25.0 / 3.0, beta=25.0 / 6.0, kappa=0.0001, tau=25.0 / 300.0, limit_sigma=False,
                     gamma=rng.choice(["default", "default", "dep"]), _defaults=True)
+    if scale is None and gammas is GAMMA_NAMES and rng.random() < 0.04:
+        # parameters typed as Python ints and related by exact coincidences (tau == sigma, beta == 1, kappa == tau ...):
+        # what people write in a config file
+        b = rng.choice([4, 1, 2, 5])
+        cfg = dict(mu=rng.choice([25, 0, 6 * b, 100]), sigma=rng.choice([8, 2 * b, b, 1]), beta=b,
+                   kappa=rng.choice([1e-4, 1e-3, 1e-2]), tau=rng.choice([0, 1, b, 0.0]), limit_sigma=rng.choice([False, True]),
+                   gamma=rng.choice(["default", "default", "one"]))
+        if rng.random() < 0.3:
+            cfg["tau"] = cfg["sigma"]
+        if rng.random() < 0.15 and cfg["tau"] and cfg["tau"] <= 0.01 * b:
+            cfg["kappa"] = float(cfg["tau"])
+        if cfg["mu"] > 20 * b:
+            cfg["mu"] = 6 * b
+        cfg["sigma"] = min(cfg["sigma"], 10 * b)
+        return cfg
     if scale is None:
         r = rng.random()
         if r < 0.45:
@@ -106,6 +121,16 @@ def gen_teams(rng, beta, kmin=2, kmax=8, pmax=8, regime=None):
                     else:
                         t.append([m_ * beta, s_ * beta])
             teams.append(t)
+        if k >= 2 and rng.random() < 0.3:
+            # the same values on both sides in mirrored seating order, or another line-up with exactly the same total
+            a = rng.randrange(k)
+            b_ = (a + 1) % k
+            if rng.random() < 0.5 or len(teams[a]) < 2:
+                teams[b_] = [list(p) for p in reversed(teams[a])]
+            else:
+                tot = sum(p[0] for p in teams[a])
+                n = len(teams[a])
+                teams[b_] = [[tot / n, teams[a][j][1]] for j in range(n)]
     elif regime == "equal_size":
         n = rng.choice([1, 1, 2, 3, rng.randint(1, pmax)])
         sub = rng.choice(["typical", "wide", "mismatch"])
@@ -413,6 +438,8 @@ def gen_case(rng, model=None, regime=None, kmax=8, pmax=8, cfg=None, int_only=Fa
         case["vals_tags"] = tags
     if rng.random() < 0.08:
         case["ids"] = "shared"
+    if rng.random() < 0.05:
+        case["names"] = rng.choice(["same", "none", "same"])  # every player called "bob" / nobody named
     if rng.random() < 0.06:
         from .util import FLAVOURS
 
